@@ -410,10 +410,11 @@ func (m *Monitor) AfterMigrate(op Op, pm *preMig, pre, post *Snap, err error) {
 		}
 	}
 	for _, line := range lib.DiffDumps(map[string][]string{"staking": pm.dump["staking"]}, map[string][]string{"staking": after["staking"]}) {
-		// "staking: -<hexkey>=..." ; record prefixes 31..36, 41, 42 may change, nothing else (validators, pools, params)
+		// "staking: -<hexkey>=..." ; the delegator-record prefixes (records 31 32 34, their indexes 33 35 36 71 38,
+		// queues 41 42) may change, nothing else (validators, pools, params, last total power ...)
 		k := strings.TrimLeft(strings.TrimPrefix(line, "staking: "), "+-")
 		switch k[:2] {
-		case "31", "32", "33", "34", "35", "36", "41", "42":
+		case "31", "32", "33", "34", "35", "36", "38", "41", "42", "71":
 		default:
 			m.fail("C14:totals:staking", "migration changed a staking key outside the delegator records: "+line)
 		}
